@@ -752,6 +752,14 @@ Lemma zero_or_normal x c :
   x = 0 \/ c <= x -> / 67108864 <= c -> x = 0 \/ bpow radix2 (-126) <= x.
 Proof. intros [H|H] Hc; [left; exact H|right]. apply small_ge_bpow_m126. lra. Qed.
 
+Lemma Rmult_box a b la ha lb hb :
+  0 <= la -> la <= a <= ha -> 0 <= lb -> lb <= b <= hb -> la * lb <= a * b <= ha * hb.
+Proof.
+  intros Hla [Ha1 Ha2] Hlb [Hb1 Hb2]. split.
+  - apply Rmult_le_compat; assumption.
+  - apply Rmult_le_compat; lra.
+Qed.
+
 (* Accuracy on the explicit box
      tf  in [1, 2^10]      dl in {0} U [1, 2^12]     avg in [1, 2^12]
      idf in [2^-10, 2^5]   k1 in [2^-4, 4]           b   in [2^-4, 1 - 2^-4]      (all finite binary32)
@@ -783,10 +791,12 @@ Proof.
   assert (HQ0 : 0 <= Q0 <= 4096 /\ (Q0 = 0 \/ / 4096 <= Q0)).
   { unfold Q0, Rdiv. destruct Hdl as [E|Hdl].
     - rewrite E, Rmult_0_l. split. lra. left; reflexivity.
-    - split. nra. right. nra. }
+    - pose proof (Rmult_box L (/ A) 1 4096 (/ 4096) 1) as M1. split. lra. right. lra. }
   destruct HQ0 as [BQ0 ZQ0].
-  assert (HS0 : / 16 <= S0) by (unfold S0; nra).
-  assert (HD0 : 1 <= D0) by (unfold D0; nra).
+  assert (HBQ0 : 0 <= B * Q0) by (apply Rmult_le_pos; lra).
+  assert (HS0 : / 16 <= S0) by (unfold S0; lra).
+  assert (HKS0 : 0 <= K * S0) by (apply Rmult_le_pos; lra).
+  assert (HD0 : 1 <= D0) by (unfold D0; lra).
   (* q = dl / avg *)
   destruct (op_box32 Q0 0 4096) as [Oq Bq];
     [apply gf32_0 | gf_pow2 12%Z | lra | lra | exact BQ0 |].
@@ -801,14 +811,16 @@ Proof.
   set (q := fdiv dl avg) in *.
   (* p = b * q *)
   assert (HP : 0 <= B * R32 q <= 4096 /\ (B * R32 q = 0 \/ / 65536 <= B * R32 q)).
-  { split. nra. destruct Zq as [E|H]; [left|right]. rewrite E; ring. nra. }
+  { pose proof (Rmult_box B (R32 q) (/ 16) (15 / 16) 0 4096) as M1.
+    split. lra. destruct Zq as [E|H]; [left|right]. rewrite E; ring.
+    pose proof (Rmult_box B (R32 q) (/ 16) (15 / 16) (/ 4096) 4096) as M2. lra. }
   destruct HP as [BP ZP].
   destruct (op_box32 (B * R32 q) 0 4096) as [Op Bp];
     [apply gf32_0 | gf_pow2 12%Z | lra | lra | exact BP |].
   destruct (fmul_correct b q Fb Fq) as [Rp Fp]; [exact Op|].
   fold B in Rp. rewrite <- Rp in Bp.
   assert (Np : near 2 (R32 (fmul b q)) (B * Q0)).
-  { rewrite Rp. apply near_rnd32. nra. apply (zero_or_normal _ _ ZP); lra.
+  { rewrite Rp. apply near_rnd32. exact HBQ0. apply (zero_or_normal _ _ ZP); lra.
     apply near_scale. lra. exact Nq. }
   set (p := fmul b q) in *.
   (* s = omb + p *)
@@ -821,12 +833,14 @@ Proof.
     unfold S0. apply near_add. exact No. exact Np. }
   set (s := fadd omb p) in *.
   (* t = k1 * s *)
+  assert (HKs : / 256 <= K * R32 s <= 32768).
+  { pose proof (Rmult_box K (R32 s) (/ 16) 4 (/ 16) 8192). lra. }
   destruct (op_box32 (K * R32 s) (/ 256) 32768) as [Ot Bt];
-    [gf_pow2 (-8)%Z | gf_pow2 15%Z | lra | lra | nra |].
+    [gf_pow2 (-8)%Z | gf_pow2 15%Z | lra | lra | exact HKs |].
   destruct (fmul_correct k1 s Fk1 Fs) as [Rt Ft]; [exact Ot|].
   fold K in Rt. rewrite <- Rt in Bt.
   assert (Nt : near 4 (R32 (fmul k1 s)) (K * S0)).
-  { rewrite Rt. apply near_rnd32. nra. right; apply small_ge_bpow_m126; nra.
+  { rewrite Rt. apply near_rnd32. exact HKS0. right; apply small_ge_bpow_m126; lra.
     apply near_scale. lra. exact Ns. }
   set (t := fmul k1 s) in *.
   (* den = tf + t *)
@@ -842,29 +856,35 @@ Proof.
   assert (Hid : / 65536 <= / R32 den <= 1).
   { split. apply Rinv_le_contravar; lra.
     replace 1 with (/ 1) by lra. apply Rinv_le_contravar; lra. }
+  assert (HTd : / 65536 <= T / R32 den <= 1024).
+  { unfold Rdiv. pose proof (Rmult_box T (/ R32 den) 1 1024 (/ 65536) 1). lra. }
   destruct (op_box32 (T / R32 den) (/ 65536) 1024) as [Or Br];
-    [gf_pow2 (-16)%Z | gf_pow2 10%Z | lra | lra | unfold Rdiv; nra |].
+    [gf_pow2 (-16)%Z | gf_pow2 10%Z | lra | lra | exact HTd |].
   destruct (fdiv_correct tf den Ftf) as [Rr Fr]; [lra | exact Or |].
   fold T in Rr. rewrite <- Rr in Br.
   assert (HiD : 0 < / D0) by (apply Rinv_0_lt_compat; lra).
+  assert (HTD : 0 < T * / D0) by (apply Rmult_lt_0_compat; lra).
   assert (Nr : near 11 (R32 (fdiv tf den)) (T * / D0)).
-  { rewrite Rr. apply near_rnd32. nra.
-    right; apply small_ge_bpow_m126; unfold Rdiv; nra.
+  { rewrite Rr. apply near_rnd32. lra.
+    right; apply small_ge_bpow_m126; lra.
     unfold Rdiv. apply near_scale. lra. apply (near_inv 5). lra. exact Nd. }
   set (r := fdiv tf den) in *.
   (* res = r * idf *)
+  assert (HrI : / 67108864 <= R32 r * I <= 32768).
+  { pose proof (Rmult_box (R32 r) I (/ 65536) 1024 (/ 1024) 32). lra. }
   destruct (op_box32 (R32 r * I) (/ 67108864) 32768) as [Ores Bres];
-    [gf_pow2 (-26)%Z | gf_pow2 15%Z | lra | lra | nra |].
+    [gf_pow2 (-26)%Z | gf_pow2 15%Z | lra | lra | exact HrI |].
   destruct (fmul_correct r idf Fr Fidf) as [Rres Fres]; [exact Ores|].
   fold I in Rres.
+  assert (HTDI : 0 < T * / D0 * I) by (apply Rmult_lt_0_compat; lra).
   assert (Nres : near 12 (R32 (fmul r idf)) (T * / D0 * I)).
-  { rewrite Rres. apply near_rnd32. nra.
-    right; apply small_ge_bpow_m126; nra.
+  { rewrite Rres. apply near_rnd32. lra.
+    right; apply small_ge_bpow_m126; lra.
     apply near_scale_r. lra. exact Nr. }
   assert (Eex : exact = T * / D0 * I).
   { unfold exact, bm25_R, D0, S0, Q0, Rdiv. fold I T L A K B.
     replace (B * L * / A) with (B * (L * / A)) by ring. ring. }
-  assert (Pex : 0 < exact) by (rewrite Eex; nra).
+  assert (Pex : 0 < exact) by (rewrite Eex; exact HTDI).
   rewrite <- Eex in Nres.
   split. exact Fres. split. exact Pex. split. exact Nres.
   rewrite (Rabs_pos_eq exact) by lra.
@@ -890,3 +910,34 @@ Proof.
 Qed.
 
 End Accuracy.
+
+(* non-vacuity of the accuracy box: the instance used above lies inside it, and the theorem then bounds
+   the distance between the computed 0x3F1EC8E9 and the real-number BM25 of the same (rounded) inputs *)
+Example bm25_accuracy_example :
+  let res := bm25_one (f32_of_Z 3) (f32_of_Z 12) ex_avg ex_idf ex_k1 ex_b (one_minus ex_b) in
+  let exact := bm25_R (16441672 / 16777216) 3 12 (15 / 2) (10066330 / 8388608) (3 / 4) in
+  (Rabs (B2R 24 128 res - exact) <= bpow radix2 (-20) * Rabs exact)%R.
+Proof.
+  destruct ex_avg_val as [Ea Fa], ex_idf_val as [Ei Fi], ex_k1_val as [Ek Fk], ex_b_val as [Eb Fb].
+  destruct (f32_of_Z_exact 3) as [E3 F3]. reflexivity.
+  destruct (f32_of_Z_exact 12) as [E12 F12]. reflexivity.
+  pose proof (bm25_accuracy_partial (f32_of_Z 3) (f32_of_Z 12) ex_avg ex_idf ex_k1 ex_b) as H.
+  cbv zeta in H. rewrite Ea, Ei, Ek, Eb, E3, E12 in H.
+  cbv zeta. apply H; try assumption; lra.
+Qed.
+
+(* ------------------------------------------------------------------------------------------ *)
+Print Assumptions bm25_zero_tf.
+Print Assumptions bm25_kernel_zero_tf.
+Print Assumptions bm25_similarity_avg_zero.
+Print Assumptions score_zero_pattern.
+Print Assumptions kernel_zero_pattern.
+Print Assumptions bm25_one_finite_core.
+Print Assumptions bm25_one_finite.
+Print Assumptions bm25_one_abs_le_idf.
+Print Assumptions bm25_kernel_all_finite.
+Print Assumptions bm25_one_finite_example.
+Print Assumptions bm25_one_example_bits.
+Print Assumptions bm25_accuracy_partial.
+Print Assumptions bm25_accuracy_2pm17.
+Print Assumptions bm25_accuracy_example.
